@@ -222,7 +222,11 @@ func cmdWorker(args []string) int {
 				rec.Known = true
 			} else if !seenSig[sig] {
 				seenSig[sig] = true
-				min, tries := chain.Shrink(sc, sig, func(c *chain.Scenario) string { return sigOf(runOne(spec, c)) }, time.Duration(*shrinkBudget*float64(time.Second)))
+				sb := *shrinkBudget
+				if chain.Hung {
+					sb = 0 // every candidate would cost a full call timeout and leave another spinning goroutine behind
+				}
+				min, tries := chain.Shrink(sc, sig, func(c *chain.Scenario) string { return sigOf(runOne(spec, c)) }, time.Duration(sb*float64(time.Second)))
 				min.Expect = sig
 				os.MkdirAll(*replayDir, 0o755)
 				path := filepath.Join(*replayDir, fmt.Sprintf("%s-%d.json", *prop, seed))
@@ -240,6 +244,11 @@ func cmdWorker(args []string) int {
 		bw.Write(b)
 		bw.WriteByte('\n')
 		bw.Flush()
+		if chain.Hung {
+			// a call of the application never returned and still occupies a processor: stop this worker
+			f.Sync()
+			os.Exit(0)
+		}
 	}
 	return 0
 }
